@@ -324,6 +324,13 @@ func (g *gen) finish(rc *recipe, kinds map[int]bool) {
 	}
 	ivp := e.initVoteproof(ipoint, prev, rc.mProposal, inet)
 	avp := e.acceptVoteproof(apoint, rc.mProposal, newblock, anet)
+	if kinds[kIvpDraw] && !kinds[kIvpOtherNet] {
+		ivp = e.initVoteproofDraw(ipoint, prev, rc.mProposal)
+	}
+	if kinds[kAvpDraw] && !kinds[kAvpOtherNet] {
+		avp = e.acceptVoteproofDraw(apoint, rc.mProposal, newblock)
+		newblock = nil // no majority
+	}
 	rc.vps[0] = vpSpec{vp: ivp, kindOK: true, valid: !kinds[kIvpOtherNet], height: ipoint.Height(), round: ipoint.Round()}
 	rc.vps[1] = vpSpec{vp: avp, kindOK: true, valid: !kinds[kAvpOtherNet], height: apoint.Height(), round: apoint.Round(), newblock: newblock}
 }
@@ -380,6 +387,8 @@ const (
 	kAvpOtherNet    = 54
 	kVpsSwapped     = 55
 	kVpsGarbled     = 56
+	kAvpDraw        = 57 // ACCEPT voteproof is a finished, valid DRAW at the manifest's point: no majority at all
+	kIvpDraw        = 58 // INIT voteproof is a draw (the code does not look at the INIT majority)
 	// checksums / map
 	kBadChecksum    = 60 // + index in itemOrder (60..65)
 	kStsGarbled     = 70
@@ -402,7 +411,7 @@ var kindName = map[int]string{
 	kOpsForeignTreeConsistent: "ops-foreign-tree+manifest", kOpsNotInStateNode: "ops-not-in-state-node(genuine)", kOpsTreeCorruptLeaf: "opstree-corrupt-leaf",
 	kManifestProposalRandom: "manifest-proposal-random", kPrOtherHeight: "proposal-other-height", kPrOtherNet: "proposal-invalid-sign", kPrGarbled: "proposal-garbled",
 	kVpsOtherHeight: "vps-other-height", kAvpOtherRound: "avp-other-round", kAvpOtherBlock: "avp-majority-other-block", kIvpOtherNet: "ivp-invalid",
-	kAvpOtherNet: "avp-invalid", kVpsSwapped: "vps-written-in-swapped-order(harmless)", kVpsGarbled: "vps-garbled",
+	kAvpOtherNet: "avp-invalid", kVpsSwapped: "vps-written-in-swapped-order(harmless)", kVpsGarbled: "vps-garbled", kAvpDraw: "avp-draw-no-majority", kIvpDraw: "ivp-draw",
 	60: "bad-checksum-proposal", 61: "bad-checksum-operations", 62: "bad-checksum-operations_tree", 63: "bad-checksum-states",
 	64: "bad-checksum-states_tree", 65: "bad-checksum-voteproofs", kStsGarbled: "sts-garbled", kOpsGarbled: "ops-garbled",
 	kStsTreeGarbled: "ststree-garbled", kMapOtherNet: "map-signed-other-network", kItemNotFed: "item-not-written-to-importer",
@@ -417,7 +426,7 @@ var allKinds = []int{
 	kOpsExtra, kOpsMissing, kOpsReplaced, kManifestOpsRootRandom, kOpsDup, kOpsInvalid, kOpsGenesisOtherSigner, kOpsTreeGarbled,
 	kOpsForeignTreeConsistent, kOpsNotInStateNode, kOpsTreeCorruptLeaf,
 	kManifestProposalRandom, kPrOtherHeight, kPrOtherNet, kPrGarbled,
-	kVpsOtherHeight, kAvpOtherRound, kAvpOtherBlock, kIvpOtherNet, kAvpOtherNet, kVpsSwapped, kVpsGarbled,
+	kVpsOtherHeight, kAvpOtherRound, kAvpOtherBlock, kIvpOtherNet, kAvpOtherNet, kVpsSwapped, kVpsGarbled, kAvpDraw, kIvpDraw,
 	60, 61, 62, 63, 64, 65, kStsGarbled, kOpsGarbled, kStsTreeGarbled, kMapOtherNet, kItemNotFed,
 	kStsItemDropped, kStsEmptied, kStsTreeEmptied, kOpsItemDropped, kOpsEmptied, kOpsTreeEmptied, kOpsNoTree,
 }
@@ -469,7 +478,7 @@ func (g *gen) tamper(rc *recipe, want []int) map[int]bool {
 			rc.sts = append(rc.sts, rc.sts[len(rc.sts)-1])
 			rc.ststree = stsTree(stKeys(rc.sts))
 		case kManifestStsRootRandom, kManifestOpsRootRandom, kManifestProposalRandom, kPrOtherHeight, kPrOtherNet,
-			kVpsOtherHeight, kAvpOtherRound, kAvpOtherBlock, kIvpOtherNet, kAvpOtherNet:
+			kVpsOtherHeight, kAvpOtherRound, kAvpOtherBlock, kIvpOtherNet, kAvpOtherNet, kAvpDraw, kIvpDraw:
 			// handled in finish
 		case kStsInvalid:
 			rc.sts = append(rc.sts, g.newState(h, false))
